@@ -12,7 +12,7 @@ import (
 
 func runC02(c *Ctx) {
 	r := c.R
-	r.Explanation = "Decides, on every feasible path of the traversal function, that exactly one status hand-off happens per traversal end and none otherwise, and what it carries (a warning holding exactly the node's error iff it failed; a completion holding exactly the node's own id, and that id as complete sink iff the node's Type() is sink, iff the event was dropped or the node is a leaf); that the collector merges every field of Status (enumerated from the type) from the received value only; that the verdict is getError(status, ctx.Err(), this graph's two thresholds) in that order; the full decision table of getError over the orderings of the two counts against their thresholds; and the threshold setters/getters (negative rejected without store, store/read on the graph of the given type). Multiset equalities over real runs under cancellation are not decided, only that entries cannot be invented. C02.accessors: Complete()/CompleteSinks() return the fields the collector filled; C02.persist: graphs holding thresholds are never deleted or replaced. C02.types: the nine stock Type() implementations are unconditional constants of their role."
+	r.Explanation = "Decides, on every feasible path of the traversal function, that exactly one status hand-off happens per traversal end and none otherwise, and what it carries (a warning holding exactly the node's error iff it failed; a completion holding exactly the node's own id, and that id as complete sink iff the node's Type() is sink, iff the event was dropped or the node is a leaf); that the collector merges every field of Status (enumerated from the type) from the received value only; that the verdict is getError(status, ctx.Err(), this graph's two thresholds) in that order; the full decision table of getError over the orderings of the two counts against their thresholds; and the threshold setters/getters (negative rejected without store, store/read on the graph of the given type). Multiset equalities over real runs under cancellation are not decided, only that entries cannot be invented. C02.accessors: Complete()/CompleteSinks() return the fields the collector filled; C02.persist: graphs holding thresholds are never deleted or replaced. C02.types: the nine stock Type() implementations are unconditional constants of their role. C02.merge status-readonly: no method of Status writes through the Status's id lists."
 	r.NotDecided = []string{"completes + warnings = pipelines as a count over real runs", "which entries are missing under cancellation"}
 	a := c.protoAnchors("C02.anchor")
 	if a == nil {
@@ -20,6 +20,7 @@ func runC02(c *Ctx) {
 	}
 	c.ruleEmit(a, "C02.emit")
 	c.ruleMerge(a)
+	c.ruleStatusReadOnly("C02.merge")
 	c.ruleVerdict(a)
 	// "exactly one entry per registered pipeline when the context is not cancelled": the collector keeps
 	// receiving until the channel is closed or the context is done, and the channel is closed only after
@@ -988,9 +989,14 @@ func (c *Ctx) ruleWGAs(rule string, a *protoAnchors) {
 }
 
 // ruleInventory: C03.inventory
-func (c *Ctx) ruleInventory(a *protoAnchors) {
+func (c *Ctx) ruleInventory(a *protoAnchors) { c.ruleInventoryAs("C03.inventory", a) }
+
+// ruleInventoryAs: every blocking operation reachable from Send inside the root package is one of the status protocol's
+// own (C03.inventory; also C12.inventory — anything else Send can wait on, a semaphore of in-flight events, say, is
+// also waited on by the Send a node makes from inside Process while the outer Send holds its share: with enough
+// of them in flight nobody proceeds, although every node returns as soon as its own Send returns).
+func (c *Ctx) ruleInventoryAs(rule string, a *protoAnchors) {
 	p, r := c.P, c.R
-	const rule = "C03.inventory"
 	// functions reachable from Send inside the root package (static edges + closures)
 	reach := map[*ssa.Function]bool{}
 	var walk func(f *ssa.Function)
